@@ -95,6 +95,17 @@ def model_position(engine, st, fr, callee, args, ops):
     return _first_match(engine, st, args, False, lambda i, r: z3.BitVecVal(i, 64))
 
 
+def model_same_impl(engine, st, fr, callee, args, ops):
+    """`Self::lookup_opcode(..)` called from `get` of the same table type: the callee of the caller's own impl block, from its MIR"""
+    impl_ = fr.fn.name.rsplit("::", 1)[0]
+    last = callee.rsplit("::", 1)[1]
+    for mf in engine.mirs:
+        c = [x for x in mf.find(last) if "closure" not in x[0] and x[0].rsplit("::", 1)[0] == impl_]
+        if len(c) == 1:
+            return sym.Inline(mf.parse_item(c[0][2]), args, None)
+    raise mir.Unsupported("cannot resolve %s within %s" % (callee, impl_))
+
+
 def closure_name_of(callee):
     return callee
 
@@ -104,6 +115,7 @@ MODELS = [
     (r"^core::slice::<impl \[.*\]>::iter$", model_slice_iter),
     (r"as Iterator>::find::<\{closure@", model_find),
     (r"as Iterator>::position::<\{closure@", model_position),
+    (r"^\w+InstructionTable::\w+$", model_same_impl),
 ]
 
 SPECIAL_KINDS = {"IdResultType", "IdResult", "LiteralContextDependentNumber", "PairLiteralIntegerIdRef",
